@@ -1,3 +1,3 @@
 #![cfg_attr(kani, recursion_limit = "512")]
-#![cfg_attr(kani, feature(formatting_options))]
+#![cfg_attr(kani, feature(formatting_options, pattern))]
 #![cfg_attr(kani, allow(dead_code, unused_imports, unused_variables, unused_mut, unused_unsafe))]
